@@ -48,7 +48,7 @@ def rule_range(program, ctx):
         "C17.range",
         "kind-range table: Event.is_ephemeral = kind >= 20000 and kind < 30000; SQL GC text `kind >= 20000 and kind < 30000`; LMDB GC walks the "
         "kind index from to_key(20000) and stops at a key above to_key(29999|30000)",
-        floor=3,
+        floor=1,
     )
     ev = program.module("aionostr.event")
     fn = next((f for f in ast.walk(ev.tree) if isinstance(f, ast.FunctionDef) and f.name == "is_ephemeral"), None)
@@ -194,7 +194,7 @@ def rule_order(program, ctx):
         "ordering domain: tags.value is TEXT and LMDB tag keys are byte strings; `value < '<now>'` is lexicographic, which equals numeric order only "
         "for equal digit counts. Accepted: an equal-length guard next to the text comparison, or CAST together with a digits-only guard; rejected: bare "
         "text comparison (10-digit vs 11-digit values compare wrongly) and bare CAST (malformed values become 0 = expired)",
-        floor=2,
+        floor=1,
     )
     node, text = gc_sql_text(program)
     d2 = text[text.lower().find("tags.name"):]
@@ -224,7 +224,7 @@ def rule_bypass(program, ctx):
         "C17.bypass",
         "LMDBStorage.add_event: `writer_queue.put((\"add\", …))` only on the edge where `event.is_ephemeral` is false; the broadcast (post_save) on every "
         "validated path (ephemeral events are delivered live, never stored)",
-        floor=2,
+        floor=1,
     )
     fn = program.func("nostr_relay.storage.kv:LMDBStorage.add_event")
     cfg = cfg_of(fn)
